@@ -53,6 +53,8 @@ pub struct Case {
     pub ctrl_links: usize,
     pub data_links: usize,
     pub ops: Vec<Op>,
+    /// indices i such that the posts i and i+1 (on different links) are written with their frames alternating
+    pub interleave: Vec<usize>,
 }
 
 fn ref_json(r: &TxnRef) -> J {
@@ -73,7 +75,7 @@ fn ref_from(j: &J) -> TxnRef {
 
 impl Case {
     pub fn to_json(&self) -> J {
-        json!({"ctrl_links": self.ctrl_links, "data_links": self.data_links, "ops": self.ops.iter().map(|o| match o {
+        json!({"ctrl_links": self.ctrl_links, "data_links": self.data_links, "interleave": self.interleave, "ops": self.ops.iter().map(|o| match o {
             Op::Declare { ctrl } => json!({"declare": ctrl}),
             Op::Post { link, txn, frames, settled, state_on_all } => json!({"post": link, "txn": ref_json(txn), "frames": frames, "settled": settled, "state_on_all": state_on_all}),
             Op::Discharge { ctrl, txn, fail } => json!({"discharge": ctrl, "txn": ref_json(txn), "fail": fail}),
@@ -97,7 +99,8 @@ impl Case {
                 None
             }
         }).collect();
-        Some(Case { ctrl_links: j.get("ctrl_links")?.as_u64()? as usize, data_links: j.get("data_links")?.as_u64()? as usize, ops })
+        let interleave = j.get("interleave").and_then(|x| x.as_array()).map(|a| a.iter().filter_map(|x| x.as_u64()).map(|x| x as usize).collect()).unwrap_or_default();
+        Some(Case { ctrl_links: j.get("ctrl_links")?.as_u64()? as usize, data_links: j.get("data_links")?.as_u64()? as usize, ops, interleave })
     }
 }
 
@@ -155,7 +158,7 @@ pub fn gen_case(rng: &mut Rng, first_frame_state_only: bool) -> Case {
         };
         ops.push(op);
     }
-    Case { ctrl_links, data_links, ops }
+    Case { ctrl_links, data_links, ops, interleave: vec![] }
 }
 
 // ------------------------------------------------------------------------------- the run
@@ -208,6 +211,42 @@ impl Script {
             self.next_out = self.next_out.wrapping_add(1);
         }
         Ok(id)
+    }
+
+    /// two deliveries on two links, frames alternating (A1 B1 A2 B2 ...); ids of both
+    async fn transfer_pair(&mut self, ha: u32, body_a: Vec<u8>, hb: u32, body_b: Vec<u8>, frames: usize, settled: (bool, bool), state: (Option<DeliveryState>, Option<DeliveryState>), state_on_all: (bool, bool)) -> Result<(u32, u32), PeerError> {
+        let cut = |body: &Vec<u8>| -> Vec<Vec<u8>> {
+            let n = frames.max(1).min(body.len().max(1));
+            let chunk = body.len().div_ceil(n).max(1);
+            if body.is_empty() { vec![vec![]] } else { body.chunks(chunk).map(|c| c.to_vec()).collect() }
+        };
+        let pa = cut(&body_a);
+        let pb = cut(&body_b);
+        let mut ids = (0u32, 0u32);
+        self.tag += 1;
+        let tag_a = self.tag;
+        self.tag += 1;
+        let tag_b = self.tag;
+        for i in 0..pa.len().max(pb.len()) {
+            for (which, pieces, h, tag) in [(0, &pa, ha, tag_a), (1, &pb, hb, tag_b)] {
+                if let Some(p) = pieces.get(i) {
+                    let first = i == 0;
+                    let last = i + 1 == pieces.len();
+                    let st = if which == 0 { settled.0 } else { settled.1 };
+                    let mut t = transfer(h, if first { Some(self.next_out) } else { None }, if first { Some(tag.to_be_bytes().to_vec()) } else { None }, if first { Some(st) } else { None }, !last);
+                    if first {
+                        if which == 0 { ids.0 = self.next_out } else { ids.1 = self.next_out }
+                    }
+                    let all = if which == 0 { state_on_all.0 } else { state_on_all.1 };
+                    if first || all {
+                        t.state = if which == 0 { state.0.clone() } else { state.1.clone() };
+                    }
+                    self.peer.send(0, Performative::Transfer(t), p).await?;
+                    self.next_out = self.next_out.wrapping_add(1);
+                }
+            }
+        }
+        Ok(ids)
     }
 
     /// reads until a disposition for `id` arrives (or the session ends / time runs out)
@@ -379,11 +418,69 @@ pub fn run_case(case: &Case) -> Result<Observed, String> {
 
         let mut label = 0u32;
         let unknown_id: Vec<u8> = vec![0xab; 16];
-        for op in &case.ops {
+        let mut skip = false;
+        for (op_index, op) in case.ops.iter().enumerate() {
             if sc.session_gone.is_some() {
                 break;
             }
+            if skip {
+                skip = false;
+                continue;
+            }
             obs.issued += 1;
+            if case.interleave.contains(&op_index) {
+                if let (Op::Post { link: la, txn: ta, frames, settled: sa, state_on_all: aa }, Some(Op::Post { link: lb, txn: tb, settled: sb, state_on_all: ab, .. })) = (op, case.ops.get(op_index + 1)) {
+                    let ha = sc.data_handles[*la % sc.data_handles.len()];
+                    let hb = sc.data_handles[*lb % sc.data_handles.len()];
+                    let state_of = |txn: &TxnRef, ids: &Vec<Vec<u8>>| -> Option<DeliveryState> {
+                        let b = match txn {
+                            TxnRef::None => None,
+                            TxnRef::Slot(k) => Some(ids.get(*k).cloned().unwrap_or_else(|| unknown_id.clone())),
+                            TxnRef::Unknown => Some(unknown_id.clone()),
+                        };
+                        b.map(|b| DeliveryState::TransactionalState(TransactionalState { txn_id: TransactionId::from(b), outcome: None }))
+                    };
+                    let (st_a, st_b) = (state_of(ta, &obs.ids), state_of(tb, &obs.ids));
+                    label += 1;
+                    let body_a = msg_bytes(label_body(label, 40 * frames));
+                    label += 1;
+                    let body_b = msg_bytes(label_body(label, 40 * frames));
+                    let (ida, idb) = sc.transfer_pair(ha, body_a, hb, body_b, *frames, (*sa, *sb), (st_a.clone(), st_b.clone()), (*aa, *ab)).await.map_err(e)?;
+                    let mut outs = vec![];
+                    for (id, settled, is_txn) in [(ida, *sa, st_a.is_some()), (idb, *sb, st_b.is_some())] {
+                        let o = if settled {
+                            sc.peer.recv_timeout = Duration::from_millis(60);
+                            let _ = sc.wait_disposition(id).await;
+                            sc.peer.recv_timeout = Duration::from_millis(400);
+                            match &sc.session_gone {
+                                Some(c) => format!("SE:{}", c),
+                                None => if is_txn { "B".into() } else { "V".into() },
+                            }
+                        } else {
+                            match sc.wait_disposition(id).await {
+                                Some(d) => match d.state {
+                                    Some(DeliveryState::TransactionalState(_)) => "B".to_string(),
+                                    Some(DeliveryState::Accepted(_)) => "V".to_string(),
+                                    other => format!("?{:?}", other),
+                                },
+                                None => match &sc.session_gone {
+                                    Some(c) => format!("SE:{}", c),
+                                    None => "?no-answer".into(),
+                                },
+                            }
+                        };
+                        outs.push(o);
+                    }
+                    tokio::time::sleep(Duration::from_millis(30)).await;
+                    obs.issued += 1;
+                    for o in outs {
+                        obs.outs.push(o);
+                        obs.delivered_after.push(delivered.lock().unwrap().clone());
+                    }
+                    skip = true;
+                    continue;
+                }
+            }
             let out = match op {
                 Op::Declare { ctrl } => match sc.ctrl_handles.get(*ctrl).copied().flatten() {
                     None => "?".to_string(),
@@ -1200,8 +1297,9 @@ pub fn check_ccase(case: &CCase, obs: &CObserved) -> Option<(String, String)> {
 // ------------------------------------------------------------------------------- main
 
 pub fn main(opts: &Opts) {
+    let prop = if opts.property.is_empty() { "C18".to_string() } else { opts.property.clone() };
     let mut report = Report::new(
-        "C18",
+        &prop,
         "resource: 2..14 operations of a scripted controller against a real listener with 1..2 control links and 1..3 data links: declares, posts (plain and under a declared / unknown / finished \
          transaction, settled and not, in 1..3 frames), discharges (commit, rollback, fail unset; of live, unknown, finished ids; through the declaring or the other control link), control-link \
          detach / close, session end; what the receiving application has been handed is sampled after every operation; controller: 2..10 API calls (Transaction on a shared Controller or \
@@ -1250,9 +1348,34 @@ pub fn main(opts: &Opts) {
         }
     }
     report.count_n("corpus_cases", corpus.len() as u64);
+    // two links posting multi-frame deliveries under one transaction with their frames alternating on the wire
+    for frames in [2usize, 3] {
+        for (all_a, all_b) in [(false, false), (true, false), (false, true), (true, true)] {
+            for settled in [false, true] {
+                for fail in [Some(false), Some(true)] {
+                    corpus.push(Case {
+                        ctrl_links: 1,
+                        data_links: 2,
+                        ops: vec![
+                            Op::Declare { ctrl: 0 },
+                            Op::Post { link: 0, txn: TxnRef::Slot(0), frames, settled, state_on_all: all_a },
+                            Op::Post { link: 1, txn: TxnRef::Slot(0), frames, settled, state_on_all: all_b },
+                            Op::Post { link: 1, txn: TxnRef::None, frames: 1, settled: false, state_on_all: true },
+                            Op::Discharge { ctrl: 0, txn: TxnRef::Slot(0), fail },
+                            Op::Post { link: 0, txn: TxnRef::None, frames: 2, settled: false, state_on_all: true },
+                        ],
+                        interleave: vec![1],
+                    });
+                }
+            }
+        }
+    }
     let n: u64 = if opts.thorough() { 4000 } else { 300 };
     for k in 0..(n + corpus.len() as u64) {
         let case = if (k as usize) < corpus.len() { corpus[k as usize].clone() } else { gen_case(&mut rng, k % 4 == 3) };
+        if !case.interleave.is_empty() {
+            report.count("cases_with_alternating_frames_of_two_links");
+        }
         report.evaluations += 1;
         let has_txn_post = case.ops.iter().any(|o| matches!(o, Op::Post { txn: TxnRef::Slot(_), .. }));
         let has_end = case.ops.iter().any(|o| matches!(o, Op::Discharge { .. } | Op::CtrlGone { .. }));
@@ -1276,7 +1399,7 @@ pub fn main(opts: &Opts) {
                     report.sample(json!({"resource": case.to_json(), "outs": obs.outs}));
                 }
                 if let Some((key, desc)) = check(&case, &obs) {
-                    report.finding(Finding { kind: "violation", key: format!("resource:{}", key), description: desc, replay: json!({"property": "C18", "module": "txn", "resource": case.to_json()}) });
+                    report.finding(Finding { kind: "violation", key: format!("resource:{}", key), description: desc, replay: json!({"property": prop, "module": "txn", "resource": case.to_json()}) });
                 }
                 let (l, i) = model_line(&case, &obs);
                 lines.push(l);
@@ -1284,7 +1407,7 @@ pub fn main(opts: &Opts) {
                 cases_of_line.push(case.to_json());
                 links_of_line.push(case.data_links);
             }
-            Err(e) => report.finding(Finding { kind: "violation", key: "resource:scenario-failed".into(), description: e, replay: json!({"property": "C18", "module": "txn", "resource": case.to_json()}) }),
+            Err(e) => report.finding(Finding { kind: "violation", key: "resource:scenario-failed".into(), description: e, replay: json!({"property": prop, "module": "txn", "resource": case.to_json()}) }),
         }
     }
     // fixed cases first: a rejected discharge followed by another call (the dropped transaction is rolled back
@@ -1305,10 +1428,10 @@ pub fn main(opts: &Opts) {
                     report.sample(json!({"controller": ccase_json(&case), "wire": obs.wire, "results": obs.results}));
                 }
                 if let Some((key, desc)) = check_ccase(&case, &obs) {
-                    report.finding(Finding { kind: "violation", key, description: desc, replay: json!({"property": "C18", "module": "txn", "controller": ccase_json(&case)}) });
+                    report.finding(Finding { kind: "violation", key, description: desc, replay: json!({"property": prop, "module": "txn", "controller": ccase_json(&case)}) });
                 }
             }
-            Err(e) => report.finding(Finding { kind: "violation", key: "controller:scenario-failed".into(), description: e, replay: json!({"property": "C18", "module": "txn", "controller": ccase_json(&case)}) }),
+            Err(e) => report.finding(Finding { kind: "violation", key: "controller:scenario-failed".into(), description: e, replay: json!({"property": prop, "module": "txn", "controller": ccase_json(&case)}) }),
         }
     }
     if driver_available() {
@@ -1320,7 +1443,7 @@ pub fn main(opts: &Opts) {
                 for i in 0..model.len().min(imp.len()) {
                     if canon(&model[i], links_of_line[i]) != canon(&imp[i], links_of_line[i]) {
                         if bad == 0 {
-                            report.finding(Finding { kind: "disagreement", key: "model-vs-implementation".into(), description: format!("{} -> implementation [{}] model [{}]", lines[i], imp[i], model[i]), replay: json!({"property": "C18", "module": "txn", "resource": cases_of_line[i], "line": lines[i], "implementation": imp[i], "model": model[i]}) });
+                            report.finding(Finding { kind: "disagreement", key: "model-vs-implementation".into(), description: format!("{} -> implementation [{}] model [{}]", lines[i], imp[i], model[i]), replay: json!({"property": prop, "module": "txn", "resource": cases_of_line[i], "line": lines[i], "implementation": imp[i], "model": model[i]}) });
                         }
                         bad += 1;
                     }
